@@ -6,7 +6,6 @@ import (
 	"fmt"
 	"os"
 	"path/filepath"
-	"sort"
 )
 
 // MkdirTemp is os.MkdirTemp with a suffix of fixed width. The standard one
@@ -28,24 +27,4 @@ func MkdirTemp(parent, prefix string) (string, error) {
 		}
 	}
 	return "", err
-}
-
-// SeedOrderUint64 returns a function that arranges identifiers in an order that
-// is a pure function of the run seed and the identifiers (for the ordering hooks
-// of the code under test, which stand in for the runtime's map order).
-func SeedOrderUint64(seed uint64) func(ids []uint64) {
-	key := func(id uint64) uint64 {
-		h := (seed ^ id*0x9e3779b97f4a7c15) * 0xbf58476d1ce4e5b9
-		h ^= h >> 31
-		return h * 0xd6e8feb86659fd93
-	}
-	return func(ids []uint64) {
-		sort.Slice(ids, func(a, b int) bool {
-			ka, kb := key(ids[a]), key(ids[b])
-			if ka != kb {
-				return ka < kb
-			}
-			return ids[a] < ids[b]
-		})
-	}
 }
